@@ -1,7 +1,7 @@
-(* C14 phase 2: agreement of the two reader models on modules without blackbox instances (part A3) *)
+(* C14 phase 2: agreement of the two reader models on the documented subset (part A3) *)
 From stdpp Require Import strings gmap sets pretty.
 From CG Require Import Model.FastVerilog Proofs.FastVerilogProofs Gen.Gen_fastv.
-From CG Require Import Proofs.FvA0 Proofs.FvA1 Proofs.FvA2.
+From CG Require Import Proofs.FvA0 Proofs.FvA1 Proofs.FvA2 Proofs.FvP1 Proofs.FvE1 Proofs.FvE2 Proofs.FvE3 Proofs.FvE4.
 Open Scope string_scope.
 
 Lemma add_input_spec g n : okname n → add_node g n Input [] = Ok (<[n := mk_node Input false (fanin g n)]> g).
@@ -14,7 +14,7 @@ Proof.
 Qed.
 
 Section sem.
-  Variables (t0 t1 tx : string).
+  Variables (t0 t1 tx : string) (bbs : list bbdef).
   Definition nm (o : opd) : string := match o with ONet s => s | OConst s => if bool_decide (s = "1'b0") then t0 else t1 end.
   Definition norm (t : gtype) (ins : list string) : gtype * list string :=
     if is_parity t then
@@ -26,13 +26,31 @@ Section sem.
     | IAssign l r => Some (l, (Buf, [nm r]))
     | _ => None end.
 
+  (* a blackbox instance as a list of node entries: its pins, and the nets on its connected output pins *)
+  Definition conn_dict (conns : list (string * option opd)) : list (string * string) :=
+    omap (λ c : string * option opd, (λ o, (c.1, nm o)) <$> c.2) conns.
+  Definition inst_views (d : bbdef) (inst : string) (conns : list (string * option opd)) : list (string * (gtype * list string)) :=
+    let dict := conn_dict conns in
+    ((λ pt : string * gtype, (pin inst pt.1, (pt.2, snd <$> filter (λ c : string * string, c.1 = pt.1 ∧ c.1 ∈ bb_in d) dict))) <$> pin_list d) ++
+    ((λ c : string * string, (c.2, (Buf, [pin inst c.1]))) <$> filter (λ c : string * string, c.1 ∉ bb_in d) dict).
+  Definition views (it : item) : list (string * (gtype * list string)) :=
+    match it with
+    | IInst bb inst conns => match find_bb_first bbs bb with Some d => inst_views d inst conns | None => [] end
+    | _ => match gate_view it with Some e => [e] | None => [] end
+    end.
+  (* operand names of a statement (for an instance: the nets on its input pins) *)
+  Definition uses (it : item) : list string :=
+    match it with
+    | IInst bb inst conns => match find_bb_first bbs bb with
+                             | Some d => snd <$> filter (λ c : string * string, c.1 ∈ bb_in d) (conn_dict conns) | None => [] end
+    | _ => match gate_view it with Some (_, (_, fis)) => fis | None => [] end
+    end.
+
   Record st := { sG : gmap string (gtype * list string); sI : gset string; sU : gset string }.
   Definition stp (s : st) (it : item) : st :=
     match it with
     | IInput ns => {| sG := sG s; sI := sI s ∪ list_to_set ns; sU := sU s |}
-    | _ => match gate_view it with
-           | Some (o, (t, fis)) => {| sG := <[o := (t, fis)]> (sG s); sI := sI s; sU := sU s ∪ list_to_set fis |}
-           | None => s end
+    | _ => {| sG := foldl (λ G e, <[e.1 := e.2]> G) (sG s) (views it); sI := sI s; sU := sU s ∪ list_to_set (uses it) |}
     end.
   Definition look (s : st) (m : string) : option ninfo :=
     if decide (m = t0) then Some (mk_node C0 false ∅) else if decide (m = t1) then Some (mk_node C1 false ∅) else
@@ -79,7 +97,7 @@ Section sem.
 
   (* one gate-like statement *)
   Lemma gate_step g s o t fis :
-    rel g s → Gok s → t ∈ primitive_gates → (t ∈ add_single_fanin → length fis ≤ 1) →
+    rel g s → (∀ f i, f ∈ fis → look s f = Some i → n_ty i ≠ BbIn ∧ n_ty i ≠ BbOut) → t ∈ primitive_gates → (t ∈ add_single_fanin → length fis ≤ 1) →
     okname o → (∀ f, f ∈ fis → okname f) → ¬ tie o → sG s !! o = None → o ∉ sI s →
     ∃ g', add_node g o t fis = Ok g' ∧
           rel g' {| sG := <[o := (t, fis)]> (sG s); sI := sI s; sU := sU s ∪ list_to_set fis |}.
@@ -88,7 +106,7 @@ Section sem.
     destruct (add_node_spec g o t fis Ht Hsf Hon Hfn) as (g' & Hadd & Hg').
     - unfold fanin. rewrite Hrel. by apply look_fanin_undriven.
     - intros f Hf. unfold ty. rewrite Hrel. destruct (look s f) as [i|] eqn:E; simpl; [|done].
-      destruct (look_ty s f i HG E). split; congruence.
+      destruct (HG f i Hf E). split; congruence.
     - exists g'. split; [done|]. intros m. rewrite Hg'.
       destruct (decide (tie m)) as [Htm|Htm].
       { assert (m ≠ o) by (intros ->; done). rewrite decide_False by done.
